@@ -18,7 +18,10 @@
    branches. What is proved towards it is the polynomial statement C15_krylov_exhausted_poly below: if A V = V T
    (the iteration stopped with zero residual; assumed there as a hypothesis, for T tridiagonal or Hessenberg) then
    p(A) v = ||v|| V p(T) e_0 for every polynomial p. Missing: (i) that A V = V T follows from the breakdown test
-   (needs the idealisation "small b -> b = 0"), (ii) the limit p -> exp. *)
+   (needs the idealisation "small b -> b = 0"), (ii) the limit p -> exp.
+   UPDATE: (i) is now proved for an exactly vanishing residual, and the exponential / smallest-reachable-eigenvalue clauses
+   are proved relative to the defining property of exp(dt A) on eigenvectors -- see the block EXHAUSTION CLAUSES at the
+   end of this file (and C14_lanczos_exact_breakdown_AV_VT, C14_arnoldi_exact_breakdown_AV_VH). *)
 From Coq Require Import ZArith QArith Qcanon List Bool Arith Lia.
 From PT Require Import Base.Scalar Base.Field Model.Krylov Proofs.KrylovVec Proofs.KrylovLanczos
   Proofs.KrylovMatvec Proofs.KrylovExpm Proofs.KrylovRitz Proofs.KrylovPoly Proofs.KrylovExamples Proofs.KrylovExamples15.
@@ -162,3 +165,201 @@ Example C15_energy_nonvacuous :
               negb (vec_approx QcF (qq 0 1) x ex_v)
   | None => false end = true.
 Proof. split; [exact ex4_energy|vm_compute; reflexivity]. Qed.
+
+(* =================================================================================================================
+   EXHAUSTION CLAUSES (Proofs/KrylovExhaust.v, KrylovExhaustSpec.v, KrylovExhaustTop.v, KrylovExhaustGen.v).
+   This block supersedes item (i) of the gap stated in the header: A V = V T is now DERIVED whenever the iteration
+   stopped on an exactly vanishing residual ("exact breakdown": the warning was issued and numpy.linalg.norm answered 0
+   on the last residual -- by the norm contract on the calls issued this forces the residual vector to be 0; see
+   C14_lanczos_exact_breakdown_AV_VT / C14_arnoldi_exact_breakdown_AV_VH), or more generally whenever the residual
+   recomputed from the returned state, [lanczos_last_resid be Vs], is the zero vector ("zero_resid": also covers
+   numiter = Krylov dimension, where the code does not compute that residual and no warning is issued).
+   What is closed, for every n, numiter, ordered field:
+     (a) polynomials: p(A) v = ||v|| V p(T) e_0 for every p, both branches, no separate hypothesis A V = V T;
+     (b) eigh_krylov: every returned Ritz pair is an exact eigenpair of A with a unit eigenvector, every Ritz value is an
+         eigenvalue reachable from v (some eigenvector not orthogonal to v; uses beta_i > 0: the first component of every
+         eigenvector of an unreduced tridiagonal matrix is non-zero), the lowest Ritz value is <= every real eigenvalue
+         of A reachable from v -- hence it EQUALS the smallest reachable eigenvalue -- and v is a combination of the
+         Ritz vectors;
+     (c) expm_krylov, Hermitian branch: the result equals E v for EVERY operator E on vectors of length n that is linear
+         and multiplies each lam-eigenvector of A by dexp(dt lam)  ([E_spec]; the matrix exponential exp(dt A) has this
+         property when dexp is the exponential function). No matrix exponential is constructed: the clause "equals the
+         exact matrix exponential applied to the vector" is closed RELATIVE TO that defining property on eigenvectors;
+     (d) general branch: the same for expm_krylov(hermitian=False) under the analogous contract for scipy.linalg.expm on
+         the one call issued ([expm_g_ok]: Em = expm(dt H) is k x k and Em u = dexp(dt lam) u whenever H u = lam u) AND
+         the extra hypothesis [e0_diag] that e_0 is a combination of eigenvectors of H (H diagonalisable on the relevant
+         subspace; not automatic for non-normal A -- Jordan blocks are not covered).
+   Still NOT proved: anything for a small but non-zero residual (floating point breakdown; numerical search only), and
+   the full-dimension case numiter = n without breakdown (needs: n orthonormal vectors of length n span, i.e.
+   V^H V = I ==> V V^H = I over an arbitrary ordered field; left to the numerical search). *)
+From PT Require Import Base.BigSum Proofs.KrylovArnoldi Proofs.KrylovExhaust Proofs.KrylovExhaustSpec Proofs.KrylovExhaustTop Proofs.KrylovExhaustGen
+  Proofs.KrylovExamplesExhaust.
+
+(* (a) both branches, exact breakdown ==> p(A) v = V p(T) (||v|| e_0) for every polynomial p (coefficient list, Horner) *)
+Theorem C15_exhausted_poly_exact_breakdown :
+  forall (F : ofield) (n : nat) (Afunc : list (Cx F) -> list (Cx F)) (dnorm : list (Cx F) -> F) (small : F -> bool),
+  maps_len F n Afunc -> small_sound F small -> linear F n Afunc ->
+  forall (v : list (Cx F)) (m : nat), length v = n -> v <> vzero n -> 1 <= m ->
+  (self_adjoint F n Afunc ->
+   forall (al be : list F) (Vs : list (list (Cx F))),
+   Forall (norm_ok F) (lanczos_calls F Afunc dnorm small v m) ->
+   lanczos F Afunc dnorm small v m = Some (al, be, Vs, true) -> lanczos_last_norm F Afunc dnorm be Vs = f0 F ->
+   forall p : list (Cx F),
+     pevalA F n Afunc p v = lincomb n (pevalT F (length Vs) (tri F al be) p (cscale (cof (dnorm v)) (e0 F (length Vs)))) Vs) /\
+  (forall (H Vs : list (list (Cx F))),
+   Forall (norm_ok F) (arnoldi_calls F Afunc dnorm small v m) ->
+   arnoldi F Afunc dnorm small v m = Some (H, Vs, true) -> arnoldi_last_norm F Afunc dnorm Vs = f0 F ->
+   forall p : list (Cx F),
+     pevalA F n Afunc p v = lincomb n (pevalT F (length Vs) (hfun F H) p (cscale (cof (dnorm v)) (e0 F (length Vs)))) Vs).
+Proof.
+  intros F n Afunc dnorm small H1 H2 H3 v m Hv Hnz Hm. split.
+  - intros Hsa al be Vs HC HR Hb. exact (exhausted_poly_lanczos F n Afunc dnorm small H1 Hsa H2 v m al be Vs H3 Hv Hnz Hm HC HR Hb).
+  - intros H Vs HC HR Hb. exact (exhausted_poly_arnoldi F n Afunc dnorm small H1 H2 v m H Vs H3 Hv Hnz Hm HC HR Hb).
+Qed.
+Print Assumptions C15_exhausted_poly_exact_breakdown.
+
+(* (b) generic core: under A V = V T (T = tridiag(alpha, beta)) and a valid eigh_tridiagonal answer (w, U), the Ritz vector
+   y_q = V u_q satisfies A y_q = w_q y_q, has length n and norm 1, and is not the zero vector *)
+Theorem C15_exhausted_ritz_exact :
+  forall (F : ofield) (n : nat) (Afunc : list (Cx F) -> list (Cx F)) (al be : list F) (Vs : list (list (Cx F)))
+         (w : list F) (U : list (list F)) (k : nat),
+  maps_len F n Afunc -> linear F n Afunc -> orthonormal F n Vs -> length Vs = k ->
+  (forall j, j < k -> Afunc (vat F Vs j) = lincomb n (tcol F k (tri F al be) j) Vs) ->
+  eigh_ok F k al be (w, U) ->
+  forall q, q < k ->
+  Afunc (ritz F n Vs U q) = cscale (cof (nth q w (f0 F))) (ritz F n Vs U q) /\ length (ritz F n Vs U q) = n /\
+  vdot (ritz F n Vs U q) (ritz F n Vs U q) = k1 (Cx F) /\ ritz F n Vs U q <> vzero n.
+Proof. exact ritz_exact. Qed.
+Print Assumptions C15_exhausted_ritz_exact.
+
+(* (b) for the model function: [ritz_exact_post]: min(numeig, k) pairs (theta_q, y_q) with length y_q = n, A y_q = theta_q y_q,
+   <y_q,y_q> = 1, y_q <> 0, theta_q reachable from v ([reachable v lam]: exists x, A x = lam x and <x,v> <> 0), theta_0 <= theta_q;
+   and for numeig >= 1: theta_0 <= lam for EVERY real lam reachable from v. Second conjunct: v = sum_q (||v|| U_0q) y_q. *)
+Theorem C15_exhausted_ritz_exact_breakdown :
+  forall (F : ofield) (n : nat) (Afunc : list (Cx F) -> list (Cx F)) (dnorm : list (Cx F) -> F) (small : F -> bool)
+         (deigh : list F -> list F -> list F * list (list F)),
+  maps_len F n Afunc -> linear F n Afunc -> self_adjoint F n Afunc -> small_sound F small ->
+  forall (v : list (Cx F)) (m numeig : nat) (al be : list F) (Vs : list (list (Cx F))),
+  length v = n -> v <> vzero n -> 1 <= m -> Forall (norm_ok F) (lanczos_calls F Afunc dnorm small v m) ->
+  eigh_oracle_ok F Afunc dnorm small deigh v m -> eigh_oracle_sorted F Afunc dnorm small deigh v m ->
+  lanczos F Afunc dnorm small v m = Some (al, be, Vs, true) ->
+  lanczos_last_norm F Afunc dnorm be Vs = f0 F ->
+  (exists ws us, eigh_krylov F Afunc dnorm small deigh v m numeig = Some (ws, us) /\ ritz_exact_post F n Afunc v Vs numeig ws us) /\
+  v = lincomb n (cs_h F (snd (deigh al be)) (length Vs) (dnorm v)) (ritzs F n Vs (snd (deigh al be)) (length Vs)).
+Proof. exact ritz_exhausted_breakdown. Qed.
+Print Assumptions C15_exhausted_ritz_exact_breakdown.
+
+(* the same whenever the last residual recomputed from the returned state is zero (no warning needed) *)
+Theorem C15_exhausted_ritz_exact_zero_resid :
+  forall (F : ofield) (n : nat) (Afunc : list (Cx F) -> list (Cx F)) (dnorm : list (Cx F) -> F) (small : F -> bool)
+         (deigh : list F -> list F -> list F * list (list F)),
+  maps_len F n Afunc -> linear F n Afunc -> self_adjoint F n Afunc -> small_sound F small ->
+  forall (v : list (Cx F)) (m numeig : nat) (al be : list F) (Vs : list (list (Cx F))) (wn : bool),
+  length v = n -> v <> vzero n -> 1 <= m -> Forall (norm_ok F) (lanczos_calls F Afunc dnorm small v m) ->
+  eigh_oracle_ok F Afunc dnorm small deigh v m -> eigh_oracle_sorted F Afunc dnorm small deigh v m ->
+  lanczos F Afunc dnorm small v m = Some (al, be, Vs, wn) ->
+  lanczos_last_resid F Afunc dnorm be Vs = vzero n ->
+  (exists ws us, eigh_krylov F Afunc dnorm small deigh v m numeig = Some (ws, us) /\ ritz_exact_post F n Afunc v Vs numeig ws us) /\
+  v = lincomb n (cs_h F (snd (deigh al be)) (length Vs) (dnorm v)) (ritzs F n Vs (snd (deigh al be)) (length Vs)).
+Proof. exact ritz_exhausted_zero_resid. Qed.
+Print Assumptions C15_exhausted_ritz_exact_zero_resid.
+
+(* (c) spectral form of the model output under A V = V T: with y_q the Ritz vectors (exact eigenvectors by (b)) and
+   c_q = nrm U_0q:   V U diag(dexp(dt w)) U^T (nrm e_0) = sum_q (c_q dexp(dt w_q)) y_q   and   nrm v_0 = sum_q c_q y_q *)
+Theorem C15_expm_exhausted_spectral_form :
+  forall (F : ofield) (n : nat) (Afunc : list (Cx F) -> list (Cx F)) (al be : list F) (Vs : list (list (Cx F)))
+         (w : list F) (U : list (list F)) (k : nat),
+  orthonormal F n Vs -> length Vs = k ->
+  (forall j, j < k -> Afunc (vat F Vs j) = lincomb n (tcol F k (tri F al be) j) Vs) ->
+  eigh_ok F k al be (w, U) ->
+  (forall j, j < k -> sumn k (fun q => kmul (Cx F) (cof (nth q (nth j U []) (f0 F))) (cof (nth q (nth 0 U []) (f0 F)))) = delta F j 0) ->
+  forall (dexp : Cx F -> Cx F) (nrm : F) (dt : Cx F), 0 < k ->
+  lincomb n (expm_coeffs_h F dexp nrm dt w U) Vs =
+    lincomb n (map (fun q => kmul (Cx F) (kmul (Cx F) (cof nrm) (cof (nth q (nth 0 U []) (f0 F))))
+                                         (dexp (kmul (Cx F) dt (cof (nth q w (f0 F)))))) (seq 0 k)) (ritzs F n Vs U k) /\
+  rscale nrm (vat F Vs 0) = lincomb n (cs_h F U k nrm) (ritzs F n Vs U k).
+Proof. exact expm_spectral_form. Qed.
+Print Assumptions C15_expm_exhausted_spectral_form.
+
+(* (c) Hermitian branch, exact breakdown: expm_krylov returns E v for every E meeting [E_spec dt E]:
+   E linear on vectors of length n and E y = dexp(dt lam) y whenever A y = lam y (lam complex) *)
+Theorem C15_expm_exhausted_exact_breakdown :
+  forall (F : ofield) (n : nat) (Afunc : list (Cx F) -> list (Cx F)) (dnorm : list (Cx F) -> F) (small : F -> bool)
+         (deigh : list F -> list F -> list F * list (list F)) (dexp : Cx F -> Cx F)
+         (dexpm : list (list (Cx F)) -> list (list (Cx F))),
+  maps_len F n Afunc -> linear F n Afunc -> self_adjoint F n Afunc -> small_sound F small ->
+  forall (v : list (Cx F)) (dt : Cx F) (m : nat) (E : list (Cx F) -> list (Cx F)) (al be : list F) (Vs : list (list (Cx F))),
+  length v = n -> v <> vzero n -> 1 <= m -> Forall (norm_ok F) (lanczos_calls F Afunc dnorm small v m) ->
+  eigh_oracle_ok F Afunc dnorm small deigh v m -> eigh_oracle_sorted F Afunc dnorm small deigh v m ->
+  E_spec F n Afunc dexp dt E ->
+  lanczos F Afunc dnorm small v m = Some (al, be, Vs, true) ->
+  lanczos_last_norm F Afunc dnorm be Vs = f0 F ->
+  expm_krylov F Afunc dnorm small deigh dexp dexpm v dt m true = Some (E v).
+Proof. exact expm_exhausted_breakdown. Qed.
+Print Assumptions C15_expm_exhausted_exact_breakdown.
+
+Theorem C15_expm_exhausted_zero_resid :
+  forall (F : ofield) (n : nat) (Afunc : list (Cx F) -> list (Cx F)) (dnorm : list (Cx F) -> F) (small : F -> bool)
+         (deigh : list F -> list F -> list F * list (list F)) (dexp : Cx F -> Cx F)
+         (dexpm : list (list (Cx F)) -> list (list (Cx F))),
+  maps_len F n Afunc -> linear F n Afunc -> self_adjoint F n Afunc -> small_sound F small ->
+  forall (v : list (Cx F)) (dt : Cx F) (m : nat) (E : list (Cx F) -> list (Cx F)) (al be : list F) (Vs : list (list (Cx F))) (wn : bool),
+  length v = n -> v <> vzero n -> 1 <= m -> Forall (norm_ok F) (lanczos_calls F Afunc dnorm small v m) ->
+  eigh_oracle_ok F Afunc dnorm small deigh v m -> eigh_oracle_sorted F Afunc dnorm small deigh v m ->
+  E_spec F n Afunc dexp dt E ->
+  lanczos F Afunc dnorm small v m = Some (al, be, Vs, wn) ->
+  lanczos_last_resid F Afunc dnorm be Vs = vzero n ->
+  expm_krylov F Afunc dnorm small deigh dexp dexpm v dt m true = Some (E v).
+Proof. exact expm_exhausted_zero_resid. Qed.
+Print Assumptions C15_expm_exhausted_zero_resid.
+
+(* (d) general branch, exact Arnoldi breakdown, under [expm_g_ok] (contract of the dense expm oracle on the call issued)
+   and [e0_diag] (e_0 is a combination of eigenvectors of H) *)
+Theorem C15_expm_exhausted_general_exact_breakdown :
+  forall (F : ofield) (n : nat) (Afunc : list (Cx F) -> list (Cx F)) (dnorm : list (Cx F) -> F) (small : F -> bool)
+         (deigh : list F -> list F -> list F * list (list F)) (dexp : Cx F -> Cx F)
+         (dexpm : list (list (Cx F)) -> list (list (Cx F))),
+  maps_len F n Afunc -> linear F n Afunc -> small_sound F small ->
+  forall (v : list (Cx F)) (dt : Cx F) (m : nat) (E : list (Cx F) -> list (Cx F)) (H Vs : list (list (Cx F))),
+  length v = n -> v <> vzero n -> 1 <= m -> Forall (norm_ok F) (arnoldi_calls F Afunc dnorm small v m) ->
+  E_spec F n Afunc dexp dt E ->
+  arnoldi F Afunc dnorm small v m = Some (H, Vs, true) ->
+  arnoldi_last_norm F Afunc dnorm Vs = f0 F ->
+  expm_g_ok F dexp dexpm dt H (length Vs) -> e0_diag F H (length Vs) ->
+  expm_krylov F Afunc dnorm small deigh dexp dexpm v dt m false = Some (E v).
+Proof. exact expm_exhausted_g_breakdown. Qed.
+Print Assumptions C15_expm_exhausted_general_exact_breakdown.
+
+(* an operator meeting E_spec for a non-constant scalar function exists for every linear A: dexp z = 1 + z, E = I + dt A *)
+Theorem C15_E_spec_first_order :
+  forall (F : ofield) (n : nat) (Afunc : list (Cx F) -> list (Cx F)),
+  maps_len F n Afunc -> linear F n Afunc -> forall dt : Cx F, E_spec F n Afunc (dexp1 F) dt (E1 F Afunc dt).
+Proof. exact E1_spec. Qed.
+Print Assumptions C15_E_spec_first_order.
+
+(* Non-vacuity (Proofs/KrylovExamplesExhaust.v): ex_A4, start vector (1,-2i,2) in a two-dimensional invariant subspace,
+   numiter = 3 > Krylov dimension 2: exact breakdown at step 1 (norm answer 0, warning issued). With dexp z = 1 + z the
+   operator E = I + dt A meets E_spec, and both branches of the model return exactly v + dt A v (dense oracle M |-> I + M);
+   every polynomial is reproduced; the two Ritz pairs (0, 25) are exact eigenpairs and v is in their span. *)
+Example C15_exhausted_nonvacuous :
+  expm_krylov QcF (matvec ex_A4) dnorm_ex ex_small deigh_ex ex_dexp1 (fun M => M) ex_v ex_dt 3 true = Some (ex_E1 ex_v) /\
+  expm_krylov QcF (matvec ex_A4) dnorm_ex ex_small deigh_ex ex_dexp1 (dexpm1 QcF) ex_v ex_dt 3 false = Some (ex_E1 ex_v) /\
+  (forall p : list (C QcF), exists al be Vs,
+     lanczos QcF (matvec ex_A4) dnorm_ex ex_small ex_v 3 = Some (al, be, Vs, true) /\
+     pevalA QcF 3 (matvec ex_A4) p ex_v =
+     lincomb 3 (pevalT QcF (length Vs) (tri QcF al be) p (cscale (@cof QcF (dnorm_ex ex_v)) (e0 QcF (length Vs)))) Vs) /\
+  (exists al be Vs,
+     lanczos QcF (matvec ex_A4) dnorm_ex ex_small ex_v 3 = Some (al, be, Vs, true) /\
+     (exists ws us, eigh_krylov QcF (matvec ex_A4) dnorm_ex ex_small deigh_ex ex_v 3 2 = Some (ws, us) /\
+                    ritz_exact_post QcF 3 (matvec ex_A4) ex_v Vs 2 ws us) /\
+     ex_v = lincomb 3 (cs_h QcF (snd (deigh_ex al be)) (length Vs) (dnorm_ex ex_v)) (ritzs QcF 3 Vs (snd (deigh_ex al be)) (length Vs))) /\
+  (match expm_krylov QcF (matvec ex_A4) dnorm_ex ex_small deigh_ex ex_dexp1 (fun M => M) ex_v ex_dt 3 true,
+         expm_krylov QcF (matvec ex_A4) dnorm_ex ex_small deigh_ex ex_dexp1 (dexpm1 QcF) ex_v ex_dt 3 false with
+   | Some x, Some x' =>
+       vec_approx QcF (qq 0 1) x (vadd ex_v (cscale ex_dt (matvec ex_A4 ex_v))) && vec_approx QcF (qq 0 1) x' x &&
+       negb (vec_approx QcF (qq 0 1) x ex_v)
+   | _, _ => false end = true).
+Proof.
+  split; [exact ex5_expm|]. split; [exact ex6_expm|]. split; [exact ex5_poly|]. split; [exact ex5_ritz|].
+  vm_compute. reflexivity.
+Qed.
